@@ -3,7 +3,7 @@
 from copy import copy
 
 from kernel import type as hol_type
-from kernel.type import Type
+from kernel.type import Type, TyInst
 from kernel import term
 from kernel.term import Term, Inst
 from kernel.thm import Thm
@@ -99,6 +99,11 @@ def print_str_args(rule, args, th):
             return pprint.N('{') + commas_join(
                 [pprint.N("'" + key + ': ') + str_val(T) for key, T in ty_items] +
                 [pprint.N(key + ': ') + str_val(val) for key, val in items]) + pprint.N('}')
+        elif isinstance(val, TyInst):
+            # Written {a: T, ...}, the form the parser reads for type instantiations
+            ty_items = sorted(val.items(), key = lambda pair: pair[0])
+            return pprint.N('{') + commas_join(
+                [pprint.N(key + ': ') + str_val(T) for key, T in ty_items]) + pprint.N('}')
         elif isinstance(val, Term):
             if th and val == th.prop and rule != 'assume' and settings.highlight:
                 return pprint.Gray("⟨goal⟩")
@@ -115,7 +120,8 @@ def print_str_args(rule, args, th):
 
     if isinstance(args, tuple) or isinstance(args, list):
         return commas_join(str_val(val) for val in args)
-    elif args:
+    elif args or isinstance(args, (Inst, TyInst)):
+        # An empty instantiation is still an argument: it is written {}
         return str_val(args)
     else:
         return [] if settings.highlight else ""
